@@ -104,6 +104,11 @@ func ParseDecimal(s string) (Decimal, error) {
 		return Decimal{}, fmt.Errorf("%w: missing decimal point", errDecimal)
 	}
 
+	// strconv.ParseInt accepts a leading '+'; the decimal syntax does not
+	if s[0] == '+' {
+		return Decimal{}, fmt.Errorf("%w: unexpected sign '+'", errDecimal)
+	}
+
 	intPart, err := strconv.ParseInt(s[0:decimalIndex], 10, 64)
 	if err != nil {
 		if errors.Is(err, strconv.ErrRange) {
